@@ -391,7 +391,10 @@ fn promo_rich_walk() -> impl Strategy<Value = WalkRecipe> {
     (proptest::sample::select(vec![18usize, 19, 21, 17, 20]).prop_map(Start::Corpus), proptest::collection::vec(any::<u16>(), 0..6)).prop_map(|(start, choices)| WalkRecipe { start, choices })
 }
 pub fn pos_spec_strategy() -> impl Strategy<Value = PosSpec> {
-    (prop_oneof![5 => gamelike_walk_strategy(50), 2 => promo_rich_walk(), 1 => endgame_walk_strategy(30)], 0u8..3).prop_map(|(walk, form)| PosSpec { walk, form })
+    // near-mate placements: few men, forced lines - the search exhausts all its iterations within
+    // milliseconds there, so the answer must still wait for the planned time
+    let tiny_tree = (placement_near_mate().prop_map(Start::Placement), proptest::collection::vec(any::<u16>(), 0..3)).prop_map(|(start, choices)| WalkRecipe { start, choices });
+    (prop_oneof![5 => gamelike_walk_strategy(50), 2 => promo_rich_walk(), 2 => endgame_walk_strategy(30), 2 => tiny_tree], 0u8..3).prop_map(|(walk, form)| PosSpec { walk, form })
 }
 
 #[derive(Debug, Clone)]
@@ -410,6 +413,11 @@ pub fn c03_session(s: &GoSession, lines_too: bool, st: &mut Stats) -> CaseResult
     }
     let mut e = Engine::spawn()?;
     e.handshake()?;
+    if s.gos.first().map(|g| g.noise % 4 == 1).unwrap_or(false) {
+        // a quarter of the sessions run with the engine's logging option switched on
+        e.send("setoption name DebugLogLevel value Info");
+        st.label("session_with_logging_on");
+    }
     e.send(&ptext);
     let mut chain = 0;
     for g in &s.gos {
@@ -1123,13 +1131,13 @@ fn rep_spec_strategy() -> impl Strategy<Value = RepSpec> {
     (prop_oneof![3 => gamelike_walk_strategy(40), 2 => endgame_walk_strategy(20)], prop_oneof![2 => Just(0u8), 2 => 1u8..4], 0u8..4).prop_map(|(walk, cycles, form)| RepSpec { walk, cycles, form })
 }
 const IGNORABLE: [&str; 8] = ["", "   ", "stop", "ponderhit", "debug on", "uci", "hello world", "register later"];
-const OPTIONS: [&str; 3] = ["setoption name DebugLogLevel value None", "setoption name DebugLogLevel value Info", "setoption name Hash value 16"];
+const OPTIONS: [&str; 8] = ["setoption name DebugLogLevel value None", "setoption name DebugLogLevel value Info", "setoption name Hash value 16", "setoption name Clear Hash", "setoption", "setoption name Ponder value true", "setoption name UCI_AnalyseMode", "setoption name DebugLogLevel"];
 fn prefix_cmd_strategy() -> impl Strategy<Value = PrefixCmd> {
     prop_oneof![
         5 => rep_spec_strategy().prop_map(PrefixCmd::Position),
         5 => go_spec_strategy(30).prop_map(PrefixCmd::Go),
         1 => Just(PrefixCmd::NewGame),
-        1 => (0u8..3).prop_map(PrefixCmd::SetOption),
+        2 => (0u8..8).prop_map(PrefixCmd::SetOption),
         1 => Just(PrefixCmd::IsReady),
         1 => (0u8..8).prop_map(PrefixCmd::Ignorable),
     ]
@@ -1191,7 +1199,7 @@ fn prefix_texts(c: &C16Case) -> Vec<(String, Option<Pos>)> {
                 }
             }
             PrefixCmd::NewGame => out.push(("ucinewgame".into(), None)),
-            PrefixCmd::SetOption(i) => out.push((OPTIONS[*i as usize % 3].into(), None)),
+            PrefixCmd::SetOption(i) => out.push((OPTIONS[*i as usize % 8].into(), None)),
             PrefixCmd::IsReady => out.push(("isready".into(), None)),
             PrefixCmd::Ignorable(i) => out.push((IGNORABLE[*i as usize % 8].into(), None)),
         }
@@ -1511,6 +1519,7 @@ fn junk_line() -> impl Strategy<Value = String> {
         1 => Just("\u{a0}\u{2003}".to_string()),
         3 => "[a-z]{1,10}( [a-z0-9]{1,8}){0,4}",
         1 => Just("uci".to_string()),
+        2 => prop_oneof![Just("setoption name Clear Hash".to_string()), Just("setoption".to_string()), Just("setoption name".to_string()), Just("setoption name Ponder".to_string()), Just("setoption name Hash value".to_string()), Just("setoption value 3".to_string())],
         1 => Just("stop".to_string()),
         1 => Just("ponderhit".to_string()),
         1 => Just("debug on".to_string()),
@@ -1522,7 +1531,9 @@ fn junk_line() -> impl Strategy<Value = String> {
     ]
 }
 fn is_command_word(w: &str) -> bool {
-    matches!(w, "isready" | "ucinewgame" | "position" | "go" | "setoption" | "quit")
+    // `setoption` lines are generated on purpose (options the engine does not have, button options
+    // without a value): they must be tolerated like any other line it has no use for
+    matches!(w, "isready" | "ucinewgame" | "position" | "go" | "quit")
 }
 fn sanitize_junk(s: &str) -> String {
     // a junk line must not accidentally BE a command after the engine's whitespace cleaning
@@ -1535,12 +1546,16 @@ fn sanitize_junk(s: &str) -> String {
     }
 }
 fn spaced(cmd: &str, mode: u8) -> String {
-    // surplus or odd whitespace inside a real command
-    match mode % 4 {
+    // surplus or odd whitespace inside a real command: the engine splits on any Unicode white space
+    match mode % 8 {
         0 => cmd.to_string(),
         1 => cmd.replace(' ', "   "),
         2 => format!("  {}  ", cmd.replace(' ', " \t ")),
-        _ => format!("\t{}\t", cmd),
+        3 => format!("\t{}\t", cmd),
+        4 => format!("{}{}", cmd.replace(' ', "\u{000B}"), '\u{000C}'),
+        5 => format!("{}\r\r", cmd),
+        6 => format!("{}{}{}", '\u{00A0}', cmd.replace(' ', "\u{00A0}"), '\u{2003}'),
+        _ => format!("{}{}", cmd.replace(' ', "\u{2002}\u{3000}"), '\u{0085}'),
     }
 }
 pub fn c17_case(c: &C17Case, st: &mut Stats) -> CaseResult {
@@ -1581,7 +1596,12 @@ pub fn c17_core(ptext: &str, p: &Pos, c: &C17Case, st: &mut Stats) -> CaseResult
         e.send(&j);
         n_junk += 1;
         if k % 3 == 0 {
-            e.isready(Duration::from_secs(2)).map_err(|m| format!("after the ignorable line {:?}: {}", j, m))?;
+            // `isready` itself written with odd white space now and then
+            e.send(&spaced("isready", k >> 2));
+            let (_, ok) = e.read_until(|l| l == "readyok", Duration::from_secs(2));
+            if !ok {
+                return Err(format!("after the ignorable line {:?}: `{}` was not answered with `readyok` within 2 s ({})", j, spaced("isready", k >> 2).escape_debug(), e.context()));
+            }
         }
         if i == c.junk.len() / 2 {
             let a = do_go(&mut e, &spaced("go", c.go_noise >> 2), 0).map_err(|m| format!("after ignorable lines: {}", m))?;
